@@ -25,8 +25,9 @@ def run(c):
         "6-35 TakeMsg/TakeDest/ReleaseMsg/ReleaseDest calls over 2-6 ip/domain keys executed one at a time on the REAL limits.Group (a call parked in a limiter wait is "
         "cancelled = time-out); result of every call and the channel length of every limiter after it compared with the Lean model; (2) BucketSet level with a simulated clock; "
         "(3) SMTP sessions on the real endpoint (both reject modes, raw/normalised sender spellings, sessions ending at MAIL, RCPT, DATA, RSET, QUIT, time-outs) and (4) remote "
-        "deliveries against scripted SMTP servers (MAIL rejected by the next hop, connection failures, limit time-outs), group occupancy after every command compared with the "
-        "model; (5) 1-64 concurrent goroutines: occupancy counters per scope key, leak and full-capacity probes after quiescence. distinct = distinct op lines",
+        "deliveries against scripted SMTP servers (connection dead before the greeting; MAIL, every RCPT - first or later one of a fresh, reused or pooled connection - and DATA "
+        "each accepted / refused / answered 421 / connection dropped / command timed out; REQUIRETLS and TLS-Required:No deliveries; connection failures, limit time-outs; more "
+        "recipients, Commit and Abort afterwards), group occupancy after every command compared with the model; (5) 1-64 concurrent goroutines: occupancy counters per scope key, leak and full-capacity probes after quiescence. distinct = distinct op lines",
         explanation="theorems over all configurations, any number of goroutines and keys, all interleavings at channel-operation granularity, all session/delivery scripts; "
         "model tied to the code by differential runs",
         search=search,
